@@ -44,7 +44,13 @@ func todoFamily(c map[string]json.RawMessage) (interface{}, error) {
 			return nil, err
 		}
 		defer os.RemoveAll(work)
-		if _, err := cocaCli(work, "todo", "-p", dir, "-e", strings.Join(filters, ",")); err != nil {
+		if boolean(c, "relroot") {
+			// run from inside the tree with the relative root `.` (the command's default): the report lands in the tree
+			work = dir
+			if _, err := cocaCli(dir, "todo", "-p", ".", "-e", strings.Join(filters, ",")); err != nil {
+				return nil, err
+			}
+		} else if _, err := cocaCli(work, "todo", "-p", dir, "-e", strings.Join(filters, ",")); err != nil {
 			return nil, err
 		}
 		b, err := getReport(work, "simple-todos.json")
